@@ -44,8 +44,8 @@ def _enc_like(n):
 def rr(name_field, typ, cls, ttl, rdata, rdlen=None):
     return name_field + struct.pack('>HHIH', typ, cls, ttl, len(rdata) if rdlen is None else rdlen) + rdata
 
-def reply(name, answers, rcode=0, ancount=None, prefix=None, ident=1, flags_hi=0x81, tail=b''):
-    body = struct.pack('>HBBHHHH', ident, flags_hi, 0x80 | (rcode & 15), 1, len(answers) if ancount is None else ancount, 0, 0)
+def reply(name, answers, rcode=0, ancount=None, prefix=None, ident=1, flags_hi=0x81, tail=b'', flags_lo=None):
+    body = struct.pack('>HBBHHHH', ident, flags_hi, (0x80 | (rcode & 15)) if flags_lo is None else flags_lo, 1, len(answers) if ancount is None else ancount, 0, 0)
     body += question_echo(name) + b''.join(answers) + tail
     return struct.pack('>H', (len(body) if prefix is None else prefix) & 0xFFFF) + body
 
@@ -96,7 +96,7 @@ class C20(F.PropCheck):
     rule = ('1-3 resolve requests per case (names 0..100 chars: regular host names, boundary lengths 3/4/62/63/64/65/100, dots anywhere, '
             'random bytes) x per-server outcome scripts {espconn_connect returns an error (-4/-1/-15/...), no connect, sent fails, disconnect, timeout, bad reply, CNAME-first, good reply '
             'with/without disconnect} x replies {valid A compressed/uncompressed, every single-field corruption, truncation at every '
-            'offset, owner names of 200..600 bytes free of 0x00/>=0xC0 (boundaries 255/256/257) with/without terminator + A record, random bytes 0..1500, 65535 bytes} x random timer advances, plus unstructured event soups; '
+            'offset, owner names of 200..600 bytes free of 0x00/>=0xC0 (boundaries 255/256/257) with/without terminator + A record, random bytes 0..1500, 65535 bytes} x random timer advances, plus the exhaustive sweep of both header flag bytes (0..255 each, all 16 RCODEs) over a perfect A answer, plus unstructured event soups; '
             'non-trivial = at least one result callback observed; distinct by sha256 of the event text')
 
     def build_impl(self):
@@ -171,7 +171,7 @@ class C20(F.PropCheck):
         m = rng.randrange(14)
         good = reply(name, [rr(namefield(), 1, 1, 60, ipb)])
         if m == 0: return reply(name, [rr(namefield(), 1, 1, 60, ipb)], prefix=len(good) - 2 + rng.choice([-2, -1, 1, 2, 256, -256])), 'bad:prefix'
-        if m == 1: return reply(name, [rr(namefield(), 1, 1, 60, ipb)], rcode=rng.choice([1, 2, 3, 5, 15])), 'bad:rcode'
+        if m == 1: return reply(name, [rr(namefield(), 1, 1, 60, ipb)], rcode=rng.randrange(1, 16)), 'bad:rcode'
         if m == 2: return reply(name, [rr(namefield(), 1, 1, 60, ipb)], ancount=0), 'bad:ancount0'
         if m == 3: return reply(name, [], ancount=rng.choice([0, 1, 7])), 'bad:no-answer-bytes'
         if m == 4: return reply(name, [rr(namefield(), rng.choice([0, 2, 5, 28, 256, 257]), 1, 60, ipb)]), 'bad:type'
@@ -275,6 +275,18 @@ class C20(F.PropCheck):
                 evs.insert(rng.randrange(len(evs) + 1), ('RECV', [], bytes(rng.getrandbits(8) for _ in range(65535)))); tags.append('reply:65535')
             evs.append(('DUMP', [], b''))
             cases.append(F.Case('%s%d' % (tier[0], i), evs, sorted(set(tags))))
+        return cases + self.flag_sweep()
+
+    def flag_sweep(self):
+        """exhaustive: every value 0..255 of each of the two header flag bytes (QR/Opcode/AA/TC/RD and RA/Z/RCODE), the rest
+        of the reply a perfect A answer: the address may be reported exactly when the low nibble of the second byte is 0"""
+        cases = []; name = b'svr1.supla.org'; ipb = bytes([10, 20, 30, 40])
+        for which in (0, 1):
+            for v in range(256):
+                r = reply(name, [rr(b'\xc0\x0c', 1, 1, 60, ipb)], flags_hi=(v if which == 0 else 0x81), flags_lo=(v if which == 1 else 0x80))
+                evs = [('DUMP', [], b''), ('RESOLVE', [], name), ('CONNCB', [], b''), ('RECV', [], r), ('DISCCB', [], b''),
+                       ('ADV', [QUIET_US], b''), ('DUMP', [], b'')]
+                cases.append(F.Case('x%d_%d' % (which, v), evs, ['exhaustive:flags-byte%d' % (2 + which)]))
         return cases
 
     # ---------------- comparison: a crash of the implementation must be a FAULT of the model and vice versa
@@ -342,6 +354,10 @@ class C20(F.PropCheck):
                         recvs = [bytes(e[2]) for e in after if e[0] == 'RECV']
                         dls = [rl] if rl is not None else sorted(seen_dls | set(range(24, 84)))
                         if not any(justified(addr, r, dls) for r in recvs):
+                            # would it be acceptable but for the response code (low nibble of the second flags byte, RFC 1035)?
+                            rc = [r[5] & 0x0F for r in recvs if len(r) > 5 and (r[5] & 0x0F) and justified(addr, r[:5] + bytes([r[5] & 0xF0]) + r[6:], dls)]
+                            if rc:
+                                v.append('address %s reported from a reply whose response code is %d, not 0 (no error)' % ('.'.join(map(str, addr)), rc[0])); continue
                             v.append('address %s reported for a %d-character name without an acceptable reply (%d replies received for this request)'
                                      % ('.'.join(map(str, addr)), len(c_name(name)), len(recvs)))
         return v
